@@ -43,7 +43,8 @@ USER = ["u1", "u-two", "u3", "_upriv"]
 LIBS = [
     {"name": "c35liba", "macros": ["a1", "a-two", "_apriv", "when"], "exports": None},
     {"name": "c35libb", "macros": ["b1", "b-two", "_bpriv", "u1"], "exports": ["b1", "_bpriv", "u1"]},
-    {"name": "c35libc", "macros": ["c1", "u3"], "exports": []},
+    {"name": "c35libc", "macros": ["c1", "u3"], "exports": [], "via": "export"},
+    {"name": "c35libd", "macros": ["d1", "d-two", "_dpriv"], "exports": ["d-two", "_dpriv"], "via": "export"},
 ]
 
 
@@ -66,7 +67,11 @@ def setup_worker():
         sys.modules[lib["name"]] = m
         src = "\n".join(f'(defmacro {n} [] "{lib["name"]}:{n}")' for n in lib["macros"])
         if lib["exports"] is not None:
-            src += "\n(setv _hy_export_macros [" + " ".join('"%s"' % mangle(n) for n in lib["exports"]) + "])"
+            if lib.get("via") == "export":
+                # the documented way: the `export` macro
+                src += "\n(export :macros [" + " ".join(lib["exports"]) + "])"
+            else:
+                src += "\n(setv _hy_export_macros [" + " ".join('"%s"' % mangle(n) for n in lib["exports"]) + "])"
         with warnings.catch_warnings():
             warnings.simplefilter("ignore")
             hy.eval(hy.read_many(src), module=m)
@@ -122,7 +127,7 @@ class G:
 
     def probes(self):
         rng = self.rng
-        names = rng.sample(USER + CORE_SHADOW + ["a1", "a-two", "b1", "zz", "L.a1", "M-x.b1", "c35liba.a1", "c35libb.b1", "_apriv",
+        names = rng.sample(USER + CORE_SHADOW + ["a1", "a-two", "b1", "zz", "L.a1", "M-x.b1", "c35liba.a1", "c35libb.b1", "_apriv", "d1", "d-two", "_dpriv", "L.d-two", "c35libd.d1", "c35libd.d-two",
                                                  "al-a1", "al-b1", "c35liba._apriv", "c35libb.u1", "c1", "L.c1", "c35libc.c1", "al-c1"], rng.randint(2, 6))
         return ["probe", names]
 
@@ -140,7 +145,7 @@ class G:
             elif r < 0.75 or depth <= 0:
                 out.append(self.probes())
             else:
-                out.append(["scope", rng.choice(["defn", "fn", "defclass", "lfor", "for"]), self.stmts(depth - 1) + [self.probes()]])
+                out.append(["scope", rng.choice(["defn", "fn", "defclass", "lfor", "for", "let", "let"]), self.stmts(depth - 1) + [self.probes()]])
         return out
 
 
@@ -238,6 +243,9 @@ def render(stmts, uid, depth=0):
                 out.append(f"(defclass C{fn} [] " + " ".join(body) + ")")
             elif kind == "lfor":
                 out.append("(lfor _ [1] (do " + " ".join(body) + " None))")
+            elif kind == "let":
+                # a variable scope, but no macro scope: definitions inside belong to the enclosing macro namespace
+                out.append(f"(let [lv{uid}x{i} 1] " + " ".join(body) + ")")
             else:
                 out.append("(for [_ [1]] " + " ".join(body) + ")")
     return out
@@ -330,7 +338,7 @@ class Model:
                             else:
                                 out.append("UNDEF")
                 elif k == "scope":
-                    if s[1] == "for":
+                    if s[1] in ("for", "let"):
                         walk(s[2])
                     else:
                         frames.append({})
@@ -374,7 +382,7 @@ def sanitize(stmts, model, extra, frames=None, module=None):
                 keep.append(n)
             out.append(["probe", keep])
         elif k == "scope":
-            if s[1] == "for":
+            if s[1] in ("for", "let"):
                 out.append(["scope", s[1], sanitize(s[2], model, extra, frames, module)])
             else:
                 frames.append({})
